@@ -1,11 +1,11 @@
 from pyvc import runner
-from contracts import keymgmt, usage, tpk, secretkeys
+from contracts import keymgmt, usage, tpk, secretkeys, signing
 
 PID = 'C15'
 
 
 def items():
-    return keymgmt.scenarios() + [s for s in usage.scenarios() + tpk.scenarios() + secretkeys.scenarios() if PID in getattr(s, 'props', ())]
+    return keymgmt.scenarios() + [s for s in usage.scenarios() + tpk.scenarios() + secretkeys.scenarios() + signing.scenarios() if PID in getattr(s, 'props', ())]
 
 
 def run(tier='quick', seed=0, only=None):
